@@ -243,6 +243,32 @@ theorem prolongation_keeps_lock (cfg : Cfg) (hfix : cfg.mono = true) (s : Table)
   · rw [acquire_holder cfg s l a t ta hold he]
     simp [set_get, newTime, hfix]
 
+/-- **A holder that shows up in time never loses its lock** (repaired code; the stamps of the commands may
+be arbitrarily *old* -- commands committed late after a partition / leader change / commit delay -- and in
+any order).  From any state in which `a` holds `l` with time `ta`: after any commands none of which is
+stamped later than `ta + U` (nothing that could count as an expiry) and none of which is `a`'s own release,
+`a` is still the holder, with a time `≥ ta`; hence every `acquire` of another client stamped `≤ ta + U` that
+follows is refused.  In particular a late prolongation of *another* client cannot purge a fresh lock
+(seeded change C16-4). -/
+theorem holder_keeps_lock_until_expiry (cfg : Cfg) (hfix : cfg.mono = true) (s : Table) (l a ta : Nat)
+    (cmds : List Cmd) (hold : s l = some (a, ta))
+    (hstamps : ClocksAgree (ta + cfg.U) cmds) (hrel : NotReleasedBy l a cmds) :
+    (∃ ta', ta ≤ ta' ∧ run cfg s cmds l = some (a, ta')) ∧
+    (∀ b t, a ≠ b → t ≤ ta + cfg.U → (acquire cfg (run cfg s cmds) l b t).2 = false) := by
+  obtain ⟨ta', hle, h'⟩ := kept_run cfg hfix cmds s l a ta (ta + cfg.U) hold (Nat.le_refl _) hstamps hrel
+  refine ⟨⟨ta', hle, h'⟩, ?_⟩
+  intro b t hab ht
+  rw [acquire_refused cfg _ l b a t ta' h' (by omega) hab]
+
+/-- non-vacuity of `holder_keeps_lock_until_expiry`: client 1 holds L1 since 118 (U = 10); a prolongation of
+client 3 stamped 100 and one of client 2 stamped 90 are committed afterwards, client 1 prolongs at 122. -/
+example :
+    let cfg : Cfg := { U := 10, mono := true }
+    let s := stateAfter cfg [.acquire 2 3 99, .acquire 1 1 118]
+    let cmds : List Cmd := [.prolongate 3 100, .prolongate 1 122, .prolongate 2 90, .acquire 1 2 123]
+    s 1 = some (1, 118) ∧ ClocksAgree (118 + cfg.U) cmds ∧ NotReleasedBy 1 1 cmds ∧
+      run cfg s cmds 1 = some (1, 122) := by decide
+
 /-! ## Release -/
 
 /-- **Releasing a lock one does not hold has no effect**: the whole table is unchanged. -/
